@@ -63,7 +63,16 @@ func (g *c07Gen) runtimePanic() string {
 func (g *c07Gen) deferStmt(k int) string {
 	t := g.tag()
 	r := g.rng
-	switch r.Intn(16) {
+	switch r.Intn(19) {
+	case 16:
+		g.feat["defer-recover-after-calling-function-with-defer"]++
+		return fmt.Sprintf("defer func() {\n§withDefer(%d)\nif e := recover(); e != nil {\nrec(%d, pcl(e))\nr = %d\n}\n}()", g.tag(), t, 200+r.Intn(50))
+	case 17:
+		g.feat["defer-recover-after-calling-function-that-recovers-nothing"]++
+		return fmt.Sprintf("defer func() {\n§doRecoverInner(%d)\ne := recover()\nrec(%d, pcl(e))\n}()", g.tag(), t)
+	case 18:
+		g.feat["defer-recover-after-nested-closure-with-defer"]++
+		return fmt.Sprintf("defer func() {\nfunc() { defer func() { rec(%d) }() }()\nrec(%d, pcl(recover()))\n}()", g.tag(), t)
 	case 0:
 		g.feat["defer-modify-result"]++
 		return fmt.Sprintf("defer func() { rec(%d, r); r += %d }()", t, 1+r.Intn(5))
@@ -168,6 +177,8 @@ func c07Prog(id int, rng *rand.Rand, feat map[string]int) *Prog {
 	b.WriteString("var §errv = []string{\"e\"}\n")
 	b.WriteString("func §tryRecover(t int) { rec(t, recover() == nil) }\n")
 	b.WriteString("func §doRecover(t int) { rec(t, pcl(recover())) }\n")
+	b.WriteString("func §withDefer(t int) { defer func() { rec(t, 1) }(); rec(t, 0) }\n")
+	b.WriteString("func §doRecoverInner(t int) { defer func() { rec(t, recover() == nil) }(); rec(t) }\n")
 	for k := 0; k < g.nfun; k++ {
 		b.WriteString(g.function(k))
 	}
@@ -176,7 +187,7 @@ func c07Prog(id int, rng *rand.Rand, feat map[string]int) *Prog {
 }
 
 func checkC07(r *fw.Run) {
-	r.SetRule("seeded random call trees of 2-6 functions (depth cut at 7): each function randomly defers closures that modify named results, recover (directly, through a helper called by the deferred function = must return nil, through a deferred helper = must recover), re-panic, panic themselves, nest defers, are deferred in loops, are method values with value and pointer receivers, builtins (delete) and compiled functions, with arguments evaluated at defer time; panics with values of assorted types and run-time panics (divide, index, nil map, nil pointer, type assertion); recover outside deferred calls; every defer entry, recovered value class and result is recorded; the program runs the tree 3 times guarded and once unguarded so that an escaping panic ends the evaluation; oracle = event equality incl. whether and with which value a panic escapes; distinct = distinct program texts")
+	r.SetRule("seeded random call trees of 2-6 functions (depth cut at 7): each function randomly defers closures that modify named results, recover (directly, through a helper called by the deferred function = must return nil, through a deferred helper = must recover, after first calling a function or closure that runs deferred calls of its own), re-panic, panic themselves, nest defers, are deferred in loops, are method values with value and pointer receivers, builtins (delete) and compiled functions, with arguments evaluated at defer time; panics with values of assorted types and run-time panics (divide, index, nil map, nil pointer, type assertion); recover outside deferred calls; every defer entry, recovered value class and result is recorded; the program runs the tree 3 times guarded and once unguarded so that an escaping panic ends the evaluation; oracle = event equality incl. whether and with which value a panic escapes; distinct = distinct program texts")
 	r.Assume("go/types + cmd/compile 1.23.5 (language go1.18) are the reference; panic(nil) and recover across the interpreted/compiled boundary (documented limitation) are not generated")
 	o := e1Opts{}
 	if p := fw.ReplayArg(); p != "" {
